@@ -316,22 +316,22 @@ func rsJustifies(vals *gtypes.ValidatorSet, id gtypes.BlockID, height int64, c *
 // the altered content) or inconsistent (content changed under the genuine header hash).
 var rsKinds = []string{
 	"genuine",
-	"txs",              // other transactions, DataHash/NumTxs recomputed (self-consistent; keeps LastBlockID, LastCommit, AppHash)
-	"txs-raw",          // other transactions under the genuine header (header hash unchanged)
-	"extra",            // bytes in Header.Extra (not covered by the header hash)
-	"commit-blockid",   // LastCommit.BlockID changed (not covered by LastCommitHash)
-	"apphash",          // header field altered
-	"time",             // header field altered
-	"valhash",          // header field altered
-	"height-field",     // the block of the next height with the height field rewritten
-	"other-height",     // the genuine block of a neighbouring height
-	"lastcommit-other", // LastCommit of another height, hash recomputed
-	"lastcommit-thin",  // genuine precommits removed until no more than 2/3 of the power is left
-	"lastcommit-nil",   // no LastCommit
-	"data-nil",         // no Data
-	"unsigned-fields",  // precommits with altered validator index/address (fields no signature covers)
-	"on-forged",        // block built on the forged ("txs") predecessor, LastCommit signed by the attackers in their slots
-	"on-forged-repeat", // the same with ONE attacker precommit repeated in every slot
+	"txs",               // other transactions, DataHash/NumTxs recomputed (self-consistent; keeps LastBlockID, LastCommit, AppHash)
+	"txs-raw",           // other transactions under the genuine header (header hash unchanged)
+	"extra",             // bytes in Header.Extra (not covered by the header hash)
+	"commit-blockid",    // LastCommit.BlockID changed (not covered by LastCommitHash)
+	"apphash",           // header field altered
+	"time",              // header field altered
+	"valhash",           // header field altered
+	"height-field",      // the block of the next height with the height field rewritten
+	"other-height",      // the genuine block of a neighbouring height
+	"lastcommit-other",  // LastCommit of another height, hash recomputed
+	"lastcommit-thin",   // genuine precommits removed until no more than 2/3 of the power is left
+	"lastcommit-nil",    // no LastCommit
+	"data-nil",          // no Data
+	"unsigned-fields",   // precommits with altered validator index/address (fields no signature covers)
+	"on-forged",         // block built on the forged ("txs") predecessor, LastCommit signed by the attackers in their slots
+	"on-forged-repeat",  // the same with ONE attacker precommit repeated in every slot
 	"on-genuine-repeat", // genuine predecessor, LastCommit is one genuine precommit repeated in every slot
 }
 
